@@ -358,6 +358,11 @@ impl Cartesian<'_> {
             crate::verif_hooks::emit("strategy", || "{\"end\":\"stopped\"}".to_string());
             return Err("Stopped".into());
         }
+        // The waypoints of the stroke come from the kinematics that is not aware of collisions,
+        // so the complete trace is now checked (at the configured safety distances).
+        if trace.par_iter().any(|waypoint| self.robot.collides(&waypoint.joints)) {
+            return Err("Collision on the planned stroke".into());
+        }
         #[cfg(opw_verif)]
         crate::verif_hooks::emit("strategy", || format!("{{\"end\":\"ok\",\"waypoints\":{}}}", trace.len()));
 
